@@ -1,0 +1,111 @@
+//go:build verif
+
+package encoding
+
+import "bytes"
+
+// C14 area: numeric-convention components ("numeric-convention components are in shortest form") and deep copies.
+// Contracts for the gcv verifier (/verif).
+
+// NumberVal reads the value bytes as a big-endian number (for values of at most 8 bytes; longer values wrap, nothing is claimed).
+//
+//@ func (Component).NumberVal
+//@   ensures len(c.Val) <= 8 ==> result == specBE(c.Val, 0, len(c.Val))
+//@   loop 1 invariant rangeindex+1 <= 8 ==> ret == specBE(c.Val, 0, rangeindex+1)
+
+// specShortestNat: the value bytes are the NonNegativeInteger encoding of x in shortest form (1, 2, 4 or 8 bytes).
+func specShortestNat(val []byte, x uint64) bool {
+	return len(val) == specNatLen(x) && specNatVal(val, 0, len(val)) == x
+}
+
+// The constructors of numeric-convention components produce the shortest form of the number under the given type.
+//
+//@ func NewNumberComponent
+//@   view content
+//@   ensures result.Typ == typ && specShortestNat(result.Val, val) && fresh(result.Val)
+
+// Round trip of a number through a numeric component (executable lemma over the real functions).
+//
+//@ func lemmaNumberComponentRoundTrip
+//@   view content
+//@   ensures result
+func lemmaNumberComponentRoundTrip(typ TLNum, x uint64) bool {
+	c := NewNumberComponent(typ, x)
+	return c.NumberVal() == x && c.Typ == typ
+}
+
+// Two shortest-form encodings of the same number are the same bytes, so numeric components built from equal numbers
+// under the same type are equal components.
+//
+//@ func lemmaNumberComponentsEqual
+//@   view content
+//@   ensures result
+func lemmaNumberComponentsEqual(typ TLNum, x uint64) bool {
+	a := NewNumberComponent(typ, x)
+	b := NewNumberComponent(typ, x)
+	return a.Equal(b)
+}
+
+// Deep copies (view "content": Component.Clone is small enough to be inlined by its callers in other packages, and the
+// primary contract of Name.Clone is the trusted A-HASH one; neither is touched).
+//
+//@ func (Component).Clone
+//@   view content
+//@   ensures specEqComp(result, c)
+//@   ensures len(c.Val) > 0 ==> fresh(result.Val)
+
+//@ func (Name).Clone
+//@   view content
+//@   ensures len(result) == len(n) && fresh(result) && specEqPrefix(result, n, len(n))
+//@   loop 1 invariant len(ret) == len(n) && fresh(ret) && specEqPrefix(ret, n, rangeindex+1)
+
+// A deep copy of a name is Equal to it and hashes equally (executable lemma over the real methods).
+//
+//@ func lemmaCloneEqualAndHashesEqually
+//@   view content
+//@   opaque specHashU64
+//@   ensures result
+func lemmaCloneEqualAndHashesEqually(n Name) bool {
+	c := n.Clone()
+	if !c.Equal(n) {
+		return false
+	}
+	lemmaHashNameEqPrefix(c, n, len(n))
+	return c.Hash() == n.Hash()
+}
+
+// ---------------------------------------------------------------------------------------
+// URI form, value part of the numeric naming conventions (seg=, off=, v=, t=, seq=): the value is printed as a decimal
+// number and parsed back to the shortest NonNegativeInteger, so printing and parsing returns the same value bytes for
+// every value in shortest form. strconv.FormatUint / ParseUint are A-DEP (deps/strconv.contract: inverse on what
+// FormatUint prints, through the uninterpreted SpecFmtU10).
+// ---------------------------------------------------------------------------------------
+
+// SpecFmtU10: the decimal string of a number (uninterpreted).
+func SpecFmtU10(x uint64) string { panic("ghost") }
+
+//@ func (compValFmtDec).ToString
+//@   ensures len(val) <= 8 ==> result == SpecFmtU10(specBE(val, 0, len(val)))
+//@   loop 1 invariant rangeindex+1 <= 8 ==> x == specBE(val, 0, rangeindex+1)
+
+// Two NonNegativeInteger encodings of the same width and the same value are the same bytes.
+//
+//@ func lemmaNatBytesEq
+//@   requires len(a) == len(b) && (len(a) == 1 || len(a) == 2 || len(a) == 4 || len(a) == 8) && specNatVal(a, 0, len(a)) == specNatVal(b, 0, len(b))
+//@   ensures specBytesEq9(a, 0, b, 0, len(a))
+func lemmaNatBytesEq(a, b []byte) {}
+
+// "Converting to a URI string and parsing back returns the same [value] ... whose numeric-convention components are in
+// shortest form": value part, over the real functions of the decimal value format.
+//
+//@ func lemmaDecValueRoundTrip
+//@   requires len(val) <= 8 && specShortestNat(val, specBE(val, 0, len(val)))
+//@   ensures result
+func lemmaDecValueRoundTrip(val []byte) bool {
+	r, err := compValFmtDec{}.FromString(compValFmtDec{}.ToString(val))
+	if err != nil {
+		return false
+	}
+	lemmaNatBytesEq(r, val)
+	return bytes.Equal(r, val)
+}
